@@ -378,6 +378,25 @@ func ruleG5(c *Ctx) {
 						stored = true
 						pos = in.Pos()
 					}
+					// a captured map or slice that is filled, emptied or edited in place survives just the same
+					isCell := func(v ssa.Value) bool {
+						u, ok := v.(*ssa.UnOp)
+						return ok && u.Op == token.MUL && u.X == ssa.Value(fv) && f == fn
+					}
+					switch x := in.(type) {
+					case *ssa.MapUpdate:
+						if isCell(x.Map) {
+							stored, pos = true, in.Pos()
+						}
+					case *ssa.Call:
+						if (isBuiltinCall(&x.Call, "delete") || isBuiltinCall(&x.Call, "clear")) && len(x.Call.Args) > 0 && isCell(x.Call.Args[0]) {
+							stored, pos = true, in.Pos()
+						}
+					case *ssa.Store:
+						if ia, ok := x.Addr.(*ssa.IndexAddr); ok && isCell(ia.X) {
+							stored, pos = true, in.Pos()
+						}
+					}
 				})
 			})
 			if !stored {
